@@ -38,6 +38,9 @@ theorem assocGet_map_isSome {β γ : Type} (f : β → γ) (n : Name) : ∀ (l :
     · simp
     · exact assocGet_map_isSome f n rest
 
+theorem isSome_false_none' {β : Type} {o : Option β} (h : o.isSome = false) : o = none := by
+  cases o <;> simp_all
+
 theorem assocGet_none_not_mem_keys {β : Type} (n : Name) : ∀ (l : List (Name × β)),
     assocGet n l = none → n ∉ l.map (·.1)
   | [], _ => by simp
@@ -58,16 +61,52 @@ structure Rel (gs : GState) (ds : DS) : Prop where
   funcs : gs.funcs = ds.rdecls.filterMap funcEntry
   gfuncs : ds.g.funcs = gs.funcs.map fun x => (x.1, x.2.params, x.2.ty)
   ctx : gs.context = ds.rtypes.map tyInstr ++ ds.rdecls.filterMap declInstr
+  errs : gs.errors.map (fun e => errKey e.kind e.value) =
+    (ds.viols.filter (·.enforced)).map (fun v => errKey v.kind v.name)
   ktypes : (gs.types.map (·.1)).Nodup
   kconsts : (gs.consts.map (·.1)).Nodup
   kfuncs : (gs.funcs.map (·.1)).Nodup
 
 theorem rel_init : Rel GState.init { g := { types := [], consts := [], funcs := [] }, viols := [] } := by
-  refine ⟨rfl, rfl, rfl, rfl, rfl, rfl, rfl, ?_, ?_, ?_⟩ <;> simp [GState.init]
+  refine ⟨rfl, rfl, rfl, rfl, rfl, rfl, rfl, rfl, ?_, ?_, ?_⟩ <;> simp [GState.init]
 
-theorem rel_addErr {gs : GState} {ds : DS} (h : Rel gs ds) (k : ErrKind) (v : Name) (r : String) (k2 : ErrKind) (n : Name) (e : Bool) :
-    Rel (gs.addErr k v) (ds.viol r k2 n e) :=
-  ⟨h.types, h.gtypes, h.consts, h.gconsts, h.funcs, h.gfuncs, h.ctx, h.ktypes, h.kconsts, h.kfuncs⟩
+theorem rel_addErr {gs : GState} {ds : DS} (h : Rel gs ds) (k : ErrKind) (n : Name) (r : String) :
+    Rel (gs.addErr k n) (ds.viol r k n true) :=
+  ⟨h.types, h.gtypes, h.consts, h.gconsts, h.funcs, h.gfuncs, h.ctx,
+   by simp [GState.addErr, DS.viol, List.filter_append, h.errs], h.ktypes, h.kconsts, h.kfuncs⟩
+
+/-- an unenforced note changes nothing the relation looks at -/
+theorem rel_note {gs : GState} {ds : DS} (h : Rel gs ds) (k : ErrKind) (n : Name) (r : String) :
+    Rel gs (ds.viol r k n false) :=
+  ⟨h.types, h.gtypes, h.consts, h.gconsts, h.funcs, h.gfuncs, h.ctx,
+   by simp [DS.viol, List.filter_append, h.errs], h.ktypes, h.kconsts, h.kfuncs⟩
+
+theorem nodup_keys_insert {β : Type} (k : Name) (v : β) (l : List (Name × β)) (hnone : assocGet k l = none)
+    (hk : (l.map (·.1)).Nodup) : ((assocInsert k v l).map (·.1)).Nodup := by
+  rw [assocInsert_absent k v l hnone]
+  simp only [List.map_append, List.map_cons, List.map_nil]
+  rw [List.nodup_append]
+  refine ⟨hk, by simp, ?_⟩
+  intro a ha b hb
+  simp at hb; subst hb
+  intro heq; subst heq
+  exact assocGet_none_not_mem_keys _ _ hnone ha
+
+theorem rel_regType {gs : GState} {ds : DS} (h : Rel gs ds) (d : StructDecl) (hnone : assocGet d.name gs.types = none)
+    (hd : ds.rdecls = []) :
+    Rel { gs with types := assocInsert d.name (.struct d.name (attrsToMap d.attrs 0 .nil)) gs.types,
+                  context := gs.context ++ [.types d.name (attrsToMap d.attrs 0 .nil)] }
+        { ds with g := { ds.g with types := ds.g.types ++ [(d.name, .struct d.name (attrsToMap d.attrs 0 .nil))] },
+                  rtypes := ds.rtypes ++ [d] } := by
+  have hins := assocInsert_absent d.name (Ty.struct d.name (attrsToMap d.attrs 0 .nil)) gs.types hnone
+  refine ⟨?_, ?_, h.consts, h.gconsts, h.funcs, h.gfuncs, ?_, h.errs, ?_, h.kconsts, h.kfuncs⟩
+  · show assocInsert d.name _ gs.types = List.map tyEntry (ds.rtypes ++ [d])
+    rw [hins, h.types]; simp [tyEntry]
+  · show ds.g.types ++ [_] = List.map tyEntry (ds.rtypes ++ [d])
+    rw [h.gtypes]; simp [tyEntry]
+  · show gs.context ++ [_] = List.map tyInstr (ds.rtypes ++ [d]) ++ List.filterMap declInstr ds.rdecls
+    rw [h.ctx, hd]; simp [tyInstr]
+  · exact nodup_keys_insert _ _ _ hnone h.ktypes
 
 theorem rel_pass1 (names : List Name) : ∀ (p : Program) (gs : GState) (ds : DS), Rel gs ds → ds.rdecls = [] →
     Rel (pass1 p gs) (declTypes names p ds) ∧ (declTypes names p ds).rdecls = []
@@ -81,45 +120,13 @@ theorem rel_pass1 (names : List Name) : ∀ (p : Program) (gs : GState) (ds : DS
     cases hs : (assocGet d.name gs.types).isSome with
     | true =>
       simp only [if_true]
-      exact rel_pass1 names rest _ _ (rel_addErr h _ _ _ _ _ _) hd
+      exact rel_pass1 names rest _ _ (rel_addErr h _ _ _) hd
     | false =>
       simp only [Bool.false_eq_true, if_false]
-      have hnone : assocGet d.name gs.types = none := by
-        cases hg : assocGet d.name gs.types with
-        | none => rfl
-        | some _ => rw [hg] at hs; simp at hs
-      apply rel_pass1 names rest
-      · have hins := assocInsert_absent d.name (Ty.struct d.name (attrsToMap d.attrs 0 .nil)) gs.types hnone
-        have hnew : ∀ (ds' : DS), ds'.rtypes = ds.rtypes → ds'.rdecls = ds.rdecls → ds'.g = ds.g → Rel gs ds' := by
-          intro ds' h1 h2 h3
-          exact ⟨by rw [h1]; exact h.types, by rw [h3, h1]; exact h.gtypes, by rw [h2]; exact h.consts,
-            by rw [h3]; exact h.gconsts, by rw [h2]; exact h.funcs, by rw [h3]; exact h.gfuncs,
-            by rw [h1, h2]; exact h.ctx, h.ktypes, h.kconsts, h.kfuncs⟩
-        -- the D2 note does not change anything the relation looks at
-        split
-        all_goals
-          refine ⟨?_, ?_, h.consts, h.gconsts, h.funcs, h.gfuncs, ?_, ?_, h.kconsts, h.kfuncs⟩
-          · show assocInsert d.name _ gs.types = List.map tyEntry (ds.rtypes ++ [d])
-            rw [hins, h.types]; simp [tyEntry]
-          · simp only [List.map_append, List.map_cons, List.map_nil]
-            first
-              | (rw [show (DS.viol "D2" ErrKind.typeNotFound d.name false ds).g = ds.g from rfl, h.gtypes]; rfl)
-              | (rw [h.gtypes]; rfl)
-          · simp only [List.map_append, List.map_cons, List.map_nil]
-            first
-              | (rw [show (DS.viol "D2" ErrKind.typeNotFound d.name false ds).rdecls = ds.rdecls from rfl,
-                     show (DS.viol "D2" ErrKind.typeNotFound d.name false ds).rtypes = ds.rtypes from rfl, hd, h.ctx, hd]; simp [tyInstr])
-              | (rw [hd, h.ctx, hd]; simp [tyInstr])
-          · show (List.map (·.1) (assocInsert d.name _ gs.types)).Nodup
-            rw [hins]
-            simp only [List.map_append, List.map_cons, List.map_nil]
-            rw [List.nodup_append]
-            refine ⟨h.ktypes, by simp, ?_⟩
-            intro a ha b hb
-            simp at hb; subst hb
-            intro heq; subst heq
-            exact assocGet_none_not_mem_keys _ _ hnone ha
-      · split <;> exact hd
+      have hnone : assocGet d.name gs.types = none := isSome_false_none' hs
+      split
+      · exact rel_pass1 names rest _ _ (rel_regType (rel_note h _ _ _) d hnone hd) hd
+      · exact rel_pass1 names rest _ _ (rel_regType h d hnone hd) hd
   | .imp _ :: rest, gs, ds, h, hd => by unfold pass1 declTypes; exact rel_pass1 names rest gs ds h hd
   | .const _ :: rest, gs, ds, h, hd => by unfold pass1 declTypes; exact rel_pass1 names rest gs ds h hd
   | .fn _ :: rest, gs, ds, h, hd => by unfold pass1 declTypes; exact rel_pass1 names rest gs ds h hd
@@ -159,8 +166,44 @@ theorem checkParamTypes_eq {gs : GState} {ds : DS} (h : Rel gs ds) : ∀ (ps : L
     unfold checkParamTypes paramTypeMissing
     rw [typeExists_eq h, checkParamTypes_eq h rest]
 
-theorem isSome_false_none {β : Type} {o : Option β} (h : o.isSome = false) : o = none := by
-  cases o <;> simp_all
+theorem rel_noteHead {gs : GState} {ds : DS} (h : Rel gs ds) (d : ConstDecl) : Rel gs (noteHead d ds) := by
+  unfold noteHead
+  cases d.value.headV with
+  | const n => dsimp only; split; exact h; exact rel_note h _ _ _
+  | val _ => exact h
+
+theorem rel_regConst {gs : GState} {ds : DS} (h : Rel gs ds) (d : ConstDecl) (hnone : assocGet d.name gs.consts = none) :
+    Rel { gs with consts := assocInsert d.name ⟨d.name, d.ty.toTy, d.value⟩ gs.consts,
+                  context := gs.context ++ [.const ⟨d.name, d.ty.toTy, d.value⟩] }
+        { ds with g := { ds.g with consts := ds.g.consts ++ [(d.name, d.ty.toTy)] }, rdecls := ds.rdecls ++ [.const d] } := by
+  have hins := assocInsert_absent d.name (⟨d.name, d.ty.toTy, d.value⟩ : ConstSem) gs.consts hnone
+  refine ⟨h.types, h.gtypes, ?_, ?_, ?_, h.gfuncs, ?_, h.errs, h.ktypes, ?_, h.kfuncs⟩
+  · show assocInsert d.name _ gs.consts = List.filterMap constEntry (ds.rdecls ++ [.const d])
+    rw [hins, h.consts]; simp [constEntry]
+  · show ds.g.consts ++ [(d.name, d.ty.toTy)] = List.map _ (assocInsert d.name _ gs.consts)
+    rw [hins, h.gconsts]; simp
+  · show gs.funcs = List.filterMap funcEntry (ds.rdecls ++ [.const d])
+    rw [h.funcs]; simp [funcEntry]
+  · show gs.context ++ [_] = List.map tyInstr ds.rtypes ++ List.filterMap declInstr (ds.rdecls ++ [.const d])
+    rw [h.ctx]; simp [declInstr]
+  · exact nodup_keys_insert _ _ _ hnone h.kconsts
+
+theorem rel_regFn {gs : GState} {ds : DS} (h : Rel gs ds) (f : FnDecl) (hnone : assocGet f.name gs.funcs = none) :
+    Rel { gs with funcs := assocInsert f.name ⟨f.name, f.result.toTy, f.params.map fun p => p.2.toTy⟩ gs.funcs,
+                  context := gs.context ++ [.fnDecl f.name (f.params.map fun p => ⟨p.1, p.2.toTy⟩) f.result.toTy] }
+        { ds with g := { ds.g with funcs := ds.g.funcs ++ [(f.name, f.params.map (·.2.toTy), f.result.toTy)] },
+                  rdecls := ds.rdecls ++ [.fn f] } := by
+  have hins := assocInsert_absent f.name (⟨f.name, f.result.toTy, f.params.map fun p => p.2.toTy⟩ : Func) gs.funcs hnone
+  refine ⟨h.types, h.gtypes, ?_, h.gconsts, ?_, ?_, ?_, h.errs, h.ktypes, h.kconsts, ?_⟩
+  · show gs.consts = List.filterMap constEntry (ds.rdecls ++ [.fn f])
+    rw [h.consts]; simp [constEntry]
+  · show assocInsert f.name _ gs.funcs = List.filterMap funcEntry (ds.rdecls ++ [.fn f])
+    rw [hins, h.funcs]; simp [funcEntry]
+  · show ds.g.funcs ++ [(f.name, f.params.map (·.2.toTy), f.result.toTy)] = List.map _ (assocInsert f.name _ gs.funcs)
+    rw [hins, h.gfuncs]; simp
+  · show gs.context ++ [_] = List.map tyInstr ds.rtypes ++ List.filterMap declInstr (ds.rdecls ++ [.fn f])
+    rw [h.ctx]; simp [declInstr]
+  · exact nodup_keys_insert _ _ _ hnone h.kfuncs
 
 theorem rel_pass2 : ∀ (p : Program) (gs : GState) (ds : DS), Rel gs ds → Rel (pass2 p gs) (declConstsFns p ds)
   | [], gs, ds, h => by unfold pass2 declConstsFns; exact h
@@ -170,94 +213,42 @@ theorem rel_pass2 : ∀ (p : Program) (gs : GState) (ds : DS), Rel gs ds → Rel
     unfold pass2 declConstsFns declConst
     rw [constLookup_eq h]
     cases hs : (assocGet d.name gs.consts).isSome with
-    | true => simp only [if_true]; exact rel_pass2 rest _ _ (rel_addErr h _ _ _ _ _ _)
+    | true => simp only [if_true]; exact rel_pass2 rest _ _ (rel_addErr h _ _ _)
     | false =>
       simp only [Bool.false_eq_true, if_false]
-      have hnone := isSome_false_none hs
-      -- the unenforced D4-head note changes nothing the relation looks at
-      have hrel' : ∀ ds', ds'.g = ds.g → ds'.rtypes = ds.rtypes → ds'.rdecls = ds.rdecls → Rel gs ds' := by
-        intro ds' h3 h1 h2
-        exact ⟨by rw [h1]; exact h.types, by rw [h3, h1]; exact h.gtypes, by rw [h2]; exact h.consts,
-          by rw [h3]; exact h.gconsts, by rw [h2]; exact h.funcs, by rw [h3]; exact h.gfuncs,
-          by rw [h1, h2]; exact h.ctx, h.ktypes, h.kconsts, h.kfuncs⟩
-      have hnote : (noteHead d ds).g = ds.g ∧ (noteHead d ds).rtypes = ds.rtypes ∧ (noteHead d ds).rdecls = ds.rdecls := by
-        unfold noteHead
-        cases d.value.headV with
-        | const n => dsimp only; split <;> exact ⟨rfl, rfl, rfl⟩
-        | val _ => exact ⟨rfl, rfl, rfl⟩
-      obtain ⟨hg0, ht0, hr0⟩ := hnote
-      generalize noteHead d ds = ds0 at hg0 ht0 hr0
-      have h0 : Rel gs ds0 := hrel' ds0 hg0 ht0 hr0
+      have hnone := isSome_false_none' hs
+      have h0 : Rel gs (noteHead d ds) := rel_noteHead h d
+      generalize noteHead d ds = ds0 at h0
       rw [checkConstTail_eq h0]
       cases ht : (d.value.tail?.bind (constTailMissing ds0.g)) with
-      | some n => dsimp only; exact rel_pass2 rest _ _ (rel_addErr h0 _ _ _ _ _ _)
+      | some n => dsimp only; exact rel_pass2 rest _ _ (rel_addErr h0 _ _ _)
       | none =>
         dsimp only
         rw [typeExists_eq h0]
         cases hty : typeRegistered ds0.g d.ty.toTy with
-        | false => simp only [Bool.not_false, if_true]; exact rel_pass2 rest _ _ (rel_addErr h0 _ _ _ _ _ _)
+        | false => simp only [Bool.not_false, if_true]; exact rel_pass2 rest _ _ (rel_addErr h0 _ _ _)
         | true =>
           simp only [Bool.not_true, Bool.false_eq_true, if_false]
-          apply rel_pass2 rest
-          have hins := assocInsert_absent d.name (⟨d.name, d.ty.toTy, d.value⟩ : ConstSem) gs.consts hnone
-          refine ⟨h0.types, h0.gtypes, ?_, ?_, ?_, h0.gfuncs, ?_, h0.ktypes, ?_, h0.kfuncs⟩
-          · show assocInsert d.name _ gs.consts = List.filterMap constEntry (ds0.rdecls ++ [.const d])
-            rw [hins, h0.consts]; simp [constEntry]
-          · show ds0.g.consts ++ [(d.name, d.ty.toTy)] = List.map _ (assocInsert d.name _ gs.consts)
-            rw [hins, h0.gconsts]; simp
-          · show gs.funcs = List.filterMap funcEntry (ds0.rdecls ++ [.const d])
-            rw [h0.funcs]; simp [funcEntry]
-          · show gs.context ++ [_] = List.map tyInstr ds0.rtypes ++ List.filterMap declInstr (ds0.rdecls ++ [.const d])
-            rw [h0.ctx]; simp [declInstr]
-          · show (List.map (·.1) (assocInsert d.name _ gs.consts)).Nodup
-            rw [hins]
-            simp only [List.map_append, List.map_cons, List.map_nil]
-            rw [List.nodup_append]
-            refine ⟨h.kconsts, by simp, ?_⟩
-            intro a ha b hb
-            simp at hb; subst hb
-            intro heq; subst heq
-            exact assocGet_none_not_mem_keys _ _ hnone ha
+          exact rel_pass2 rest _ _ (rel_regConst h0 d hnone)
   | .fn f :: rest, gs, ds, h => by
     unfold pass2 declConstsFns declFn
     have hlook : (rlookup f.name ds.g.funcs).isSome = (assocGet f.name gs.funcs).isSome := by
       rw [rlookup_eq_assocGet, h.gfuncs]; exact assocGet_map_isSome (fun (x : Func) => (x.params, x.ty)) f.name gs.funcs
     rw [hlook]
     cases hs : (assocGet f.name gs.funcs).isSome with
-    | true => simp only [if_true]; exact rel_pass2 rest _ _ (rel_addErr h _ _ _ _ _ _)
+    | true => simp only [if_true]; exact rel_pass2 rest _ _ (rel_addErr h _ _ _)
     | false =>
       simp only [Bool.false_eq_true, if_false]
-      have hnone := isSome_false_none hs
+      have hnone := isSome_false_none' hs
       rw [typeExists_eq h]
       cases hty : typeRegistered ds.g f.result.toTy with
-      | false => simp only [Bool.not_false, if_true]; exact rel_pass2 rest _ _ (rel_addErr h _ _ _ _ _ _)
+      | false => simp only [Bool.not_false, if_true]; exact rel_pass2 rest _ _ (rel_addErr h _ _ _)
       | true =>
         simp only [Bool.not_true, Bool.false_eq_true, if_false]
         rw [checkParamTypes_eq h]
         cases hp : paramTypeMissing ds.g f.params with
-        | some n => dsimp only; exact rel_pass2 rest _ _ (rel_addErr h _ _ _ _ _ _)
-        | none =>
-          dsimp only
-          apply rel_pass2 rest
-          have hins := assocInsert_absent f.name (⟨f.name, f.result.toTy, f.params.map fun p => p.2.toTy⟩ : Func) gs.funcs hnone
-          refine ⟨h.types, h.gtypes, ?_, h.gconsts, ?_, ?_, ?_, h.ktypes, h.kconsts, ?_⟩
-          · show gs.consts = List.filterMap constEntry (ds.rdecls ++ [.fn f])
-            rw [h.consts]; simp [constEntry]
-          · show assocInsert f.name _ gs.funcs = List.filterMap funcEntry (ds.rdecls ++ [.fn f])
-            rw [hins, h.funcs]; simp [funcEntry]
-          · show ds.g.funcs ++ [(f.name, f.params.map (·.2.toTy), f.result.toTy)] = List.map _ (assocInsert f.name _ gs.funcs)
-            rw [hins, h.gfuncs]; simp
-          · show gs.context ++ [_] = List.map tyInstr ds.rtypes ++ List.filterMap declInstr (ds.rdecls ++ [.fn f])
-            rw [h.ctx]; simp [declInstr]
-          · show (List.map (·.1) (assocInsert f.name _ gs.funcs)).Nodup
-            rw [hins]
-            simp only [List.map_append, List.map_cons, List.map_nil]
-            rw [List.nodup_append]
-            refine ⟨h.kfuncs, by simp, ?_⟩
-            intro a ha b hb
-            simp at hb; subst hb
-            intro heq; subst heq
-            exact assocGet_none_not_mem_keys _ _ hnone ha
+        | some n => dsimp only; exact rel_pass2 rest _ _ (rel_addErr h _ _ _)
+        | none => dsimp only; exact rel_pass2 rest _ _ (rel_regFn h f hnone)
 
 /-- the model's declaration passes compute the declarative registration -/
 theorem rel_run (p : Program) : Rel (pass2 p (pass1 p GState.init)) (declPhase p) := by
